@@ -36,19 +36,25 @@ def need(c, driver, counters):
 def recipe(c: Check):
     c.build(["Properties/C09.vo", "Corr/C09.vo"], harness=["c09"])
     c.obligations("C09")
-    c.run_driver("ports", q(c.tier, 400, 6000), shards=q(c.tier, 8, 16))
+    st = c.run_driver("ports", q(c.tier, 400, 6000), shards=q(c.tier, 8, 16))
+    if st:
+        for cfgname in ("cfg:zero-allowed", "cfg:unbindable-dropped"):
+            if st.get("distribution", {}).get(cfgname, 0) <= 0:
+                c.broken.append(dict(kind="coverage", name="driver ports never used configuration %s" % cfgname, detail=""))
     need(c, "ports", ["NB_RESERVED", "NB_RANDOM_OK", "NB_RANDOM_NONE", "NB_SPEC_OK", "NB_UNAVAIL", "NB_USED", "NB_NOTALLOWED",
-                      "NB_RELEASE", "NB_STEAL"])
+                      "NB_RELEASE", "NB_RESERVED_OWNED"])
     c.run_driver("pxy", q(c.tier, 240, 3000), shards=q(c.tier, 8, 16))
     need(c, "pxy", ["NX_TCP_OK", "NX_TCP_REFUSED", "NX_TCP_LISTENFAIL", "NX_UDP_OK", "NX_UDP_REFUSED", "NX_UDP_LISTENFAIL",
                           "NX_GROUP_FIRST", "NX_GROUP_JOIN", "NX_GROUP_LISTENFAIL", "NX_GROUP_JOIN_REFUSED", "NX_CLOSE_TCP",
                           "NX_CLOSE_GROUP_LAST", "NX_CLOSE_GROUP_OTHER", "NX_CLOSE_UDP", "NX_CLOSE_UDP_AGAIN", "NX_SQUAT"])
-    c.run_driver("portsys", q(c.tier, 60, 1000), shards=q(c.tier, 8, 16))
+    st = c.run_driver("portsys", q(c.tier, 60, 1000), shards=q(c.tier, 8, 16))
+    if st and st.get("distribution", {}).get("same-port-back-expected", 0) <= 0:
+        c.broken.append(dict(kind="coverage", name="driver portsys never exercised the same-port-back clause", detail=""))
     need(c, "portsys", ["NY_QUOTA_REFUSED", "NY_EXISTS_REFUSED", "NY_REGISTERED", "NY_RUN_REFUSED", "NY_CLOSE_OWN",
                         "NY_CLOSE_UNKNOWN", "NY_SESSION_END", "NY_LATE_CLOSE"])
     return c.finish(
         rule="ports driver: histories (6-27 ops) of Acquire/Release on the real ports.Manager (tcp and udp) over 127.0.9.1:20900+, "
-             "nine allowPorts shapes (range, singles, overlapping, Single-with-range, port 0 allowed, empty, ...), requested ports from "
+             "ten allowPorts shapes (range, singles, overlapping, Single-with-range, port 0 / negative / >65535 listed, empty, ...), requested ports from "
              "{0, allowed, used, valid-but-not-allowed, -1, 65536, 70000}, four recurring names, a squatter binding/unbinding ports "
              "between operations; after each op the three tables (verif accessor) and a bind scan of the OS are recorded and compared "
              "with Model/Ports.v; the observed traces are also run through the property monitor. pxy driver: Run/Close histories "
